@@ -480,7 +480,14 @@ func (r *Re) SMT() string {
 // ---------------------------------------------------------------------------
 // Parser for the .lang syntax
 
+type langExample struct {
+	lang   string
+	member bool
+	text   string
+}
+
 type LangEnv struct {
+	examples []langExample
 	defs    map[string]*Re
 	src     map[string]string // name -> source text ("(code) ..." for code-derived)
 	pending map[string]string
@@ -514,6 +521,24 @@ func (le *LangEnv) LoadDir(dir string) error {
 			if strings.HasPrefix(strings.TrimSpace(line), "#") || strings.TrimSpace(line) == "" {
 				continue
 			}
+			if strings.HasPrefix(line, "in ") || strings.HasPrefix(line, "notin ") {
+				flush()
+				member := strings.HasPrefix(line, "in ")
+				rest := strings.TrimSpace(line[strings.Index(line, " ")+1:])
+				k := strings.Index(rest, ":")
+				if k < 0 {
+					return fmt.Errorf("%s: bad example line %q", f, line)
+				}
+				ln := strings.TrimSpace(rest[:k])
+				for _, lit := range splitGoStrings(rest[k+1:]) {
+					t, err := strconv.Unquote(lit)
+					if err != nil {
+						return fmt.Errorf("%s: bad example string %s", f, lit)
+					}
+					le.examples = append(le.examples, langExample{ln, member, t})
+				}
+				continue
+			}
 			if line[0] != ' ' && line[0] != '\t' {
 				if k := strings.Index(line, "="); k > 0 && isLangName(strings.TrimSpace(line[:k])) {
 					flush()
@@ -527,6 +552,47 @@ func (le *LangEnv) LoadDir(dir string) error {
 		flush()
 	}
 	return nil
+}
+
+// splitGoStrings splits a sequence of Go string literals ("..." or `...`).
+func splitGoStrings(s string) []string {
+	var out []string
+	for i := 0; i < len(s); {
+		switch s[i] {
+		case '"':
+			j := i + 1
+			for j < len(s) && s[j] != '"' {
+				if s[j] == '\\' {
+					j++
+				}
+				j++
+			}
+			out = append(out, s[i:j+1])
+			i = j + 1
+		case '`':
+			j := i + 1 + strings.IndexByte(s[i+1:], '`')
+			out = append(out, s[i:j+1])
+			i = j + 1
+		default:
+			i++
+		}
+	}
+	return out
+}
+
+// CheckExamples evaluates the member / non-member examples of every language in use.
+func (le *LangEnv) CheckExamples(used map[string]bool) []string {
+	var bad []string
+	for _, ex := range le.examples {
+		if !le.Has(ex.lang) {
+			bad = append(bad, fmt.Sprintf("example for unknown language %s", ex.lang))
+			continue
+		}
+		if got := reMatch(le.Get(ex.lang), ex.text); got != ex.member {
+			bad = append(bad, fmt.Sprintf("specification sanity: %q in %s is %v, expected %v", ex.text, ex.lang, got, ex.member))
+		}
+	}
+	return bad
 }
 
 func isLangName(s string) bool {
@@ -550,6 +616,20 @@ func (le *LangEnv) Get(name string) *Re {
 	}
 	src, ok := le.pending[name]
 	if !ok {
+		// code-derived families
+		var b int
+		if n, _ := fmt.Sscanf(name, "NO_%02x_STAR", &b); n == 1 && len(name) == 10 {
+			le.NoByteStar(byte(b))
+			return le.defs[name]
+		}
+		if strings.HasPrefix(name, "FOLD_") {
+			le.Fold(strings.TrimPrefix(name, "FOLD_"))
+			return le.defs[name]
+		}
+		if name == "HIGH_BYTES_PLUS" {
+			le.HighBytesPlus()
+			return le.defs[name]
+		}
 		panic(unsupported("unknown language %s", name))
 	}
 	le.defs[name] = nil
